@@ -294,12 +294,19 @@ func c14Run(s *Shard) {
 						}
 						var req M
 						accept := true
+						types := []string{"gain", "cost"}
+						if (idx[2]+idx[5])%2 == 1 {
+							types = []string{"cost", "gain"} // a gain criterion listed after a cost criterion
+						}
 						if method == "aspectEliminationHeuristic" {
-							req = aeRequest(aeCfg{N: 3, Vals: vals, Types: []string{"gain", "cost"}, Weights: []float64{2, 1}, Spec: spec, Ranges: idx[0]%2 == 0, Extra: true})
+							req = aeRequest(aeCfg{N: 3, Vals: vals, Types: types, Weights: []float64{2, 1}, Spec: spec, Ranges: idx[0]%2 == 0, Extra: true})
 							accept = fname != "idealSubtractiveCoefficient"
 						} else {
-							req = satRequest(satCfg{N: 3, Vals: vals, Types: []string{"gain", "cost"}, Spec: spec, Ranges: idx[0]%2 == 0, ZVal: 3})
+							req = satRequest(satCfg{N: 3, Vals: vals, Types: types, Spec: spec, Ranges: idx[0]%2 == 0, ZVal: 3})
 							accept = fname != "idealAdditiveCoefficient"
+						}
+						if (idx[3]+idx[4])%2 == 1 {
+							req = renameIDs(req, map[string]string{"zz": "0a"}) // the never-considered alternative sorts first
 						}
 						c := &Case{Prop: "C14", Kind: "wiring", Req: req, Params: M{"method": method, "function": fname, "accept": accept}}
 						s.Evals++
